@@ -145,6 +145,27 @@ NOT_APPLICABLE = {
 
 PENDING = {}
 
+
+# clauses added after the fifth round of seeded changes (DESIGN.md §9.10); appended to the claim text
+EXTRA = {
+ "C01": " Round 5: the commit proof saved with a committed header is a private copy (C01.11, found defect D28, repaired); sign bytes kept by a proof constructor never alias a reused buffer (C01.12).",
+ "C02": " Round 5: start-up suppression of a second proposal (C02.10): once our own header is found in the mirror's view or the action store, the strategy is entered only with a nil proposal channel.",
+ "C04": " Round 5: every kernel call that moves the voting position is followed by the observer update persisting it on every path that does not propagate an internal failure (C04.10).",
+ "C05": " Round 5: stored commit proofs are private copies (C05.9); proofs never keep sign bytes aliased to a reused buffer (C05.10).",
+ "C06": " Round 5: reset completeness of recycled views (C06.6): every Reset/ResetForSameHeight clears all fields but the documented height-scoped ones.",
+ "C07": " Round 5: the engine gives its mirror the chain's validator set for the initial height, never the external genesis document (C07.6).",
+ "C08": " Round 5: every DecidePrecommitRequest send site lies behind a Tendermint trigger on every path (C08.9).",
+ "C09": " Round 5: the vote handlers dispatch on a looked-up view id only after the lookup reported ViewFound (C09.11).",
+ "C10": " Round 5: restart takes the initial validator set from what the chain recorded (C10.7); the stored commit proof is a private copy that later view recycling cannot empty (C10.8, defect D28 repaired).",
+ "C11": " Round 5: the force-send slot is unused in production or cleared on every round entrance (C11.7).",
+ "C12": " Round 5: each started timer's elapsed channel is freshly made on every path to the start response (C12.8).",
+ "C13": " Round 5: no machine-word product or shift feeds a big.Int of the combination-index arithmetic without an overflow test (C13.8).",
+ "C14": " Round 5: no Marshal* result aliases a pooled or reused bytes.Buffer (C14.5, ownership analysis of Buffer.Bytes() aliases with callee retention summaries).",
+ "C15": " Round 5: the sign bytes are the whole content the scheme wrote, or every write of the shipped scheme is counted where the helpers cut at the reported count (C15.6).",
+ "C16": " Round 5: store map discipline (C16.6): every map update accumulates, is refused when the key is present, rewrites the action record, or is one of three replace-by-contract methods.",
+ "C18": " Round 5: no comparison of vote power uses an operand computed by hand arithmetic over a Byzantine threshold (C18.8).",
+}
+
 def main():
     props = [json.loads(l) for l in open('/verif/properties.jsonl')]
     checks = []
@@ -160,7 +181,7 @@ def main():
                 "evidence_file": f"/verif/evidence/{pid}.json",
                 "replay_cmd_template": "./check replay {path}",
                 "engine": "gverif",
-                "level_claimed": {"category": c['category'], "text": c['text'], "design_ref": c['design_ref']},
+                "level_claimed": {"category": c['category'], "text": c['text'] + EXTRA.get(pid, ""), "design_ref": c['design_ref'] + (", §9.10" if pid in EXTRA else "")},
                 "level_note": c['note'],
                 "technique": c['technique'],
             })
